@@ -1,8 +1,210 @@
-import Magog.Model.Eval
-import Magog.Model.Time
+import Magog.Lemmas.SearchIter
+import Magog.Lemmas.SearchExamples
+import Magog.Lemmas.SearchLocal
 
-/-! Property C11 — theorems (see DESIGN §5). -/
+/-! Property C11 — an interrupted iteration never leaks into the move played.
+
+Partial-correctness statements about `Model.iterDeep` / `Model.deepenLoop` (hypothesis `… = .ok s`), valid for
+every `env` (any oracle answers, any `sortFn`, `blend`, `logInterval`), killer table and initial `rows` / `len0`.
+`s.out` lists the output events most recent first; `infoDepth d score nodes pv` is the "iteration `d` completed"
+line, which `deepenLoop` prints only after the post-iteration checks (`timeUp = false`, `interrupted = false`)
+passed and the root line was copied to `bestLine` (`s.cand`). -/
 
 namespace Magog.Props.C11
+open Magog Magog.Model
+
+/-- The move played is the head of the line copied after the deepest iteration that was *accepted*:
+    with `s.out = bestmove m :: infoPv best done nodes pv :: rest'`
+    * (i) `1 ≤ done ≤ max 1 maxDepth`;
+    * (ii) if `done ≥ 2`, the completion event `infoDepth done best nodes' pv` of iteration `done` (same score, same
+      line) occurs in `rest'`, and no `infoDepth d …` with `d > done` occurs anywhere in `s.out`;
+    * (iii) if `done = 1` there is no `infoDepth` event at all;
+    * moreover `pv = s.cand`, and the depths of all `infoDepth` events, in chronological order, are exactly
+      `2, 3, …, done` — so a later, interrupted iteration contributes no completion event (by `C10`/the frame lemma it
+      contributes only `infoPv` / `currmove` lines and never changes `s.cand`). -/
+theorem C11_no_leak {env : Env} {qfuel : Nat} {p : Position} {maxDepth : Nat} {killers : Killers}
+    {rows : Array (Array Move)} {len0 : Nat} {s : SS} {m : Move} {best : Int} {done nodes : Nat} {pv : List Move}
+    {rest' : List Event}
+    (h : iterDeep env qfuel p maxDepth killers rows len0 = .ok s)
+    (hout : s.out = .bestmove m :: .infoPv best done nodes pv :: rest') :
+    (1 ≤ done ∧ done ≤ max 1 maxDepth) ∧
+    (2 ≤ done → (∃ nodes', Event.infoDepth done best nodes' pv ∈ rest') ∧
+      ∀ d sc n pv', Event.infoDepth d sc n pv' ∈ s.out → d ≤ done) ∧
+    (done = 1 → ∀ d sc n pv', Event.infoDepth d sc n pv' ∉ s.out) ∧
+    pv = s.cand ∧
+    (depthsOf s.out).reverse = List.range' 2 (done - 1) ∧
+    (∀ e ∈ rest', e.isIterEvent = true) := by
+  obtain ⟨score, one, l, s1, added1, _, _, p1, hc⟩ := iterDeep_shape h
+  rcases hc with ⟨_, hout', _⟩ | ⟨_, best', done', nodes', added, m', tl, hcand, hout', p2, r⟩
+  · rw [hout'] at hout; cases hout
+  rw [hout'] at hout
+  simp only [List.cons.injEq, Event.bestmove.injEq, Event.infoPv.injEq] at hout
+  obtain ⟨rfl, ⟨rfl, rfl, rfl, rfl⟩, rfl⟩ := hout
+  have hd1 : depthsOf added1 = [] := depthsOf_searchInfo fun e he => (p1 e he).1
+  have hdep : depthsOf s.out = depthsOf added := by
+    rw [hout']
+    show depthsOf ([Event.bestmove m', Event.infoPv best' done' nodes' (m' :: tl)] ++ (added ++ added1)) = _
+    rw [depthsOf_append, depthsOf_append, hd1, List.append_nil]; rfl
+  have hseq : (depthsOf s.out).reverse = List.range' 2 (done' - 1) := by
+    rw [hdep]
+    rcases r with ⟨h0, rfl, _, _⟩ | ⟨_, _, hr, _⟩
+    · rw [h0]; rfl
+    · exact hr
+  have hbound : ∀ d sc n pv', Event.infoDepth d sc n pv' ∈ s.out → 2 ≤ d ∧ d ≤ done' := by
+    intro d sc n pv' he
+    have : d ∈ (depthsOf s.out).reverse := List.mem_reverse.2 (mem_depthsOf.2 ⟨sc, n, pv', he⟩)
+    rw [hseq, List.mem_range'_1] at this
+    omega
+  have hiter : ∀ e ∈ added ++ added1, e.isIterEvent = true := by
+    intro e he
+    rcases List.mem_append.1 he with he | he
+    · exact (p2 e he).1
+    · exact isSearchInfo_isIterEvent (p1 e he).1
+  refine ⟨?_, ?_, ?_, hcand.symm, hseq, hiter⟩
+  · rcases r with ⟨_, rfl, _, _⟩ | ⟨h2, hmax, _, _⟩
+    · exact ⟨Nat.le_refl _, Nat.le_max_left _ _⟩
+    · exact ⟨by omega, Nat.le_trans hmax (Nat.le_max_right _ _)⟩
+  · intro h2
+    refine ⟨?_, fun d sc n pv' he => (hbound d sc n pv' he).2⟩
+    rcases r with ⟨_, rfl, _, _⟩ | ⟨_, _, _, n', hmem⟩
+    · omega
+    · exact ⟨n', List.mem_append_left _ hmem⟩
+  · intro h1 d sc n pv' he
+    have := hbound d sc n pv' he
+    omega
+
+open SearchExamples in
+/-- non-vacuity: Ka1 vs Kh8, `go depth 3` with the clock running out in the middle of iteration 3 (consultation
+    40): the run (kernel-evaluated) succeeds and reports `done = 2 < 3`, although iteration 3 had already printed
+    pv lines -/
+example : ∃ s m best nodes pv rest', iterDeep timedEnv 3 kkPos 3 Killers.empty (newRows 6) 6 = .ok s ∧
+    s.out = .bestmove m :: .infoPv best 2 nodes pv :: rest' := by
+  obtain ⟨s, m, best, nodes, pv, rest, hs, ho, _⟩ := endsWithBest_elim timed_run3
+  exact ⟨s, m, best, nodes, pv, rest, hs, ho⟩
+
+/-- An iteration of `deepenLoop` after which the clock has run out (`env.timeUp` answers `true` at the
+    post-iteration consultation, number `s1.tick`) or the interrupt flag is set is discarded: the loop returns the
+    previous `(best, done)`; the stored best line is unchanged and the iteration contributed only
+    `infoPv` / `currmove` events. -/
+theorem C11_interrupted_iteration_discarded {env : Env} {qfuel : Nat} {p : Position} {maxDepth n cur : Nat}
+    {best : Int} {done len0 : Nat} {s : SS} {score : Int} {one : Bool} {len1 : Nat} {s1 : SS}
+    (hcur : cur ≤ maxDepth)
+    (hsab : startAlphaBeta env qfuel p cur len0 s = .ok (score, one, len1, s1))
+    (hstop : env.timeUp s1.tick = true ∨ s1.interrupted = true) :
+    ∃ s', deepenLoop env qfuel p maxDepth (n + 1) cur best done len0 s = .ok (best, done, s') ∧
+      s'.cand = s.cand ∧
+      ∃ added, s'.out = added ++ s.out ∧ ∀ e ∈ added, e.isSearchInfo = true := by
+  refine ⟨s1.consult, deepenLoop_discard hcur hsab hstop, ?_, ?_⟩
+  · exact (startAlphaBeta_searchFrame hsab).cand
+  · obtain ⟨added, e, hp⟩ := (startAlphaBeta_searchFrame hsab).out
+    exact ⟨added, e, fun e he => (hp e he).1⟩
+
+/-- Conversely, whatever `deepenLoop` does: if it returns a `done'` different from the `done` it was started with,
+    then iteration `done'` was accepted (its completion event was printed with the returned score and the stored
+    line); otherwise score and stored line are the ones it was started with. -/
+theorem C11_deepenLoop_result {env : Env} {qfuel : Nat} {p : Position} {maxDepth n cur : Nat}
+    {best : Int} {done len0 : Nat} {s : SS} {best' : Int} {done' : Nat} {s' : SS}
+    (h : deepenLoop env qfuel p maxDepth n cur best done len0 s = .ok (best', done', s')) :
+    ∃ added, s'.out = added ++ s.out ∧
+      ((best' = best ∧ done' = done ∧ s'.cand = s.cand ∧ depthsOf added = []) ∨
+       (cur ≤ done' ∧ done' ≤ maxDepth ∧ ∃ nodes', Event.infoDepth done' best' nodes' s'.cand ∈ added)) := by
+  obtain ⟨added, e, _, _, r⟩ := deepenLoop_spec _ _ _ _ _ _ _ _ _ _ _ _ _ h
+  refine ⟨added, e, ?_⟩
+  rcases r with ⟨h0, hb, hd, hc⟩ | ⟨h1, h2, _, h4⟩
+  · exact .inl ⟨hb, hd, hc, h0⟩
+  · exact .inr ⟨h1, h2, h4⟩
+
+open SearchExamples in
+/-- non-vacuity: iteration 2 on Ka1 vs Kh8 from the fresh state with the clock running out at consultation 5
+    (kernel-evaluated) satisfies the hypotheses -/
+example : ∃ score one len1 s1, (2 ≤ 2) ∧
+    startAlphaBeta earlyEnv 3 kkPos 2 6 freshSS = .ok (score, one, len1, s1) ∧
+    (earlyEnv.timeUp s1.tick = true ∨ s1.interrupted = true) := by
+  obtain ⟨score, one, len1, s1, h1, h2⟩ := stoppedIteration_elim
+  exact ⟨score, one, len1, s1, Nat.le_refl _, h1, h2⟩
+
+/-- **Oracle locality.** A successful search only depends on the oracle answers at the consultations it actually
+    made: if `env'` has the same static parameters (`blend`, `sortFn`, `logInterval`, `lazy`, `stackCap`) and its
+    clock, stop channel and print gate agree with `env`'s at every consultation number `t < s.tick`
+    (`EnvAgree env env' 0 s.tick`), the run under `env'` coincides with the run under `env`. -/
+theorem C11_oracle_locality {env env' : Env} {qfuel : Nat} {p : Position} {maxDepth : Nat} {killers : Killers}
+    {rows : Array (Array Move)} {len0 : Nat} {s : SS}
+    (h : iterDeep env qfuel p maxDepth killers rows len0 = .ok s) (ag : EnvAgree env env' 0 s.tick) :
+    iterDeep env' qfuel p maxDepth killers rows len0 = .ok s :=
+  iterDeep_local h ag
+
+open SearchExamples in
+/-- non-vacuity: `timedEnv'` answers like `timedEnv` below consultation 100 and differently afterwards; the
+    kernel-evaluated run under `timedEnv` makes at most 100 consultations -/
+example : ∃ s, iterDeep timedEnv 3 kkPos 3 Killers.empty (newRows 6) 6 = .ok s ∧
+    EnvAgree timedEnv timedEnv' 0 s.tick := by
+  obtain ⟨s, _, _, _, _, _, hs, _, hb⟩ := endsWithBest_elim timed_run3
+  refine ⟨s, hs, ⟨rfl, rfl, rfl, rfl, rfl, ?_, ?_, fun _ _ _ => rfl⟩⟩
+  · intro t _ ht
+    have : t < 100 := by omega
+    simp [timedEnv, timedEnv', exEnv, this]
+  · intro t _ ht
+    have : ¬ t ≥ 100 := by omega
+    simp [timedEnv, timedEnv', exEnv, this]
+
+/-- **Prefix property.** If the search with limit `maxDepth` reports `done = D` (its move `m` comes from accepted
+    iteration `D`), then the search with limit `D` under the same oracle succeeds with a state `sD` that plays the same
+    move `m` with the same score and line, after no more consultations (`sD.tick ≤ s.tick`). If moreover the oracle
+    stayed quiet through accepted iteration `D` (no timeout, no stop request at any consultation `t < sD.tick`),
+    then the run with `maxDepth = D` under the quiet oracle `env.quieted` ends in exactly the same state `sD` — in
+    particular it plays the same move. -/
+theorem C11_prefix {env : Env} {qfuel : Nat} {p : Position} {maxDepth : Nat} {killers : Killers}
+    {rows : Array (Array Move)} {len0 : Nat} {s : SS} {m : Move} {best : Int} {D nodes : Nat} {pv : List Move}
+    {rest : List Event}
+    (h : iterDeep env qfuel p maxDepth killers rows len0 = .ok s)
+    (hout : s.out = .bestmove m :: .infoPv best D nodes pv :: rest) :
+    ∃ sD nodesD restD, iterDeep env qfuel p D killers rows len0 = .ok sD ∧
+      sD.out = .bestmove m :: .infoPv best D nodesD pv :: restD ∧ sD.tick ≤ s.tick ∧
+      ((∀ t, t < sD.tick → env.timeUp t = false ∧ env.stopAt t = false) →
+        iterDeep env.quieted qfuel p D killers rows len0 = .ok sD) := by
+  obtain ⟨sD, nodesD, restD, hD, hoD, htD⟩ := iterDeep_truncate h hout
+  exact ⟨sD, nodesD, restD, hD, hoD, htD, fun hq => iterDeep_local hD (envAgree_quieted hq)⟩
+
+/-- With a monotone clock (once run out, it stays run out) the clock half of the quietness hypothesis of
+    `C11_prefix` is automatic for `D ≥ 2`: iteration `D` was accepted, so the clock had not run out at its acceptance
+    check, which is the last consultation of the depth-`D` run. Only the stop channel has to be assumed empty. -/
+theorem C11_prefix_monotone {env : Env} {qfuel : Nat} {p : Position} {maxDepth : Nat} {killers : Killers}
+    {rows : Array (Array Move)} {len0 : Nat} {s : SS} {m : Move} {best : Int} {D nodes : Nat} {pv : List Move}
+    {rest : List Event}
+    (hmono : ∀ a b, a ≤ b → env.timeUp a = true → env.timeUp b = true) (hD2 : 2 ≤ D)
+    (h : iterDeep env qfuel p maxDepth killers rows len0 = .ok s)
+    (hout : s.out = .bestmove m :: .infoPv best D nodes pv :: rest) :
+    ∃ sD nodesD restD, iterDeep env qfuel p D killers rows len0 = .ok sD ∧
+      sD.out = .bestmove m :: .infoPv best D nodesD pv :: restD ∧ sD.tick ≤ s.tick ∧
+      ((∀ t, t < sD.tick → env.stopAt t = false) →
+        iterDeep env.quieted qfuel p D killers rows len0 = .ok sD) := by
+  obtain ⟨sD, nodesD, restD, hD, hoD, htD, hq⟩ := C11_prefix h hout
+  refine ⟨sD, nodesD, restD, hD, hoD, htD, fun hstop => hq fun t ht => ⟨?_, hstop t ht⟩⟩
+  have hlast := iterDeep_last_check hD hoD hD2
+  cases htu : env.timeUp t with
+  | false => rfl
+  | true =>
+    have := hmono t (sD.tick - 1) (by omega) htu
+    rw [hlast] at this
+    cases this
+
+open SearchExamples in
+/-- non-vacuity: the run Ka1 vs Kh8, `go depth 3` under `timedEnv` (clock runs out at consultation 40, monotone)
+    reports `D = 2`; the depth-2 run under `timedEnv` makes at most 40 consultations, all of them quiet -/
+example : (∀ a b, a ≤ b → timedEnv.timeUp a = true → timedEnv.timeUp b = true) ∧
+    (∃ s m best nodes pv rest', iterDeep timedEnv 3 kkPos 3 Killers.empty (newRows 6) 6 = .ok s ∧
+      s.out = .bestmove m :: .infoPv best 2 nodes pv :: rest') ∧
+    (∃ sD, iterDeep timedEnv 3 kkPos 2 Killers.empty (newRows 6) 6 = .ok sD ∧
+      ∀ t, t < sD.tick → timedEnv.timeUp t = false ∧ timedEnv.stopAt t = false) := by
+  refine ⟨?_, ?_, ?_⟩
+  · intro a b hab ha
+    simp only [timedEnv, exEnv, decide_eq_true_eq] at ha ⊢
+    omega
+  · obtain ⟨s, m, best, nodes, pv, rest, hs, ho, _⟩ := endsWithBest_elim timed_run3
+    exact ⟨s, m, best, nodes, pv, rest, hs, ho⟩
+  · obtain ⟨sD, _, _, _, _, _, hs, _, hb⟩ := endsWithBest_elim timed_run2
+    refine ⟨sD, hs, fun t ht => ⟨?_, rfl⟩⟩
+    have : ¬ t ≥ 40 := by omega
+    simp [timedEnv, exEnv, this]
 
 end Magog.Props.C11
